@@ -22,11 +22,15 @@ def dyadic(xs):
 def exactq_text(j, c, toks, v, block):
     """the run of an exact variant on double weights as a driver case: weights exactly as integers, the implementation's
     index / dim / cycle lines unchanged"""
-    W, _ = dyadic([float(t) for t in toks])
+    rf = line(block, "retf")
+    import math
+    if rf and not math.isfinite(float(rf[0])): rf = None
+    W, _ = dyadic([float(t) for t in toks] + ([float(rf[0])] if rf else []))
     s = "case %s exactq d 0 %s %d %d\n" % (j, v, P_FACTOR, Q_FACTOR) + "g %d %d\n" % (c[0], len(c[1]))
     s += "".join("e %d %d %d\n" % (u, w_, W[i]) for i, (u, w_, _) in enumerate(c[1]))
     for w in block["lines"]:
-        if w[0] in ("index", "dim", "cycle", "init"): s += " ".join(w) + "\n"
+        if w[0] in ("index", "dim", "cycle", "init", "hs"): s += " ".join(w) + "\n"
+    if rf: s += "retx %d\n" % W[-1]       # the returned double, exactly, on the same scale
     return s + "end\n"
 
 def fspt_text(j, c, toks, block):
@@ -162,7 +166,8 @@ def run(tier, replay=None):
     res.coverage.update({"explanation": "graphs with decimal weights (j/10, j/1000), near-tie weights (k/1000 + a few 1e-10) and random doubles in [1e-3,1e3] through all six exact entry points; the doubles are turned into exact rationals and the C01 oracle (count, simple cycles, GF(2) independence), |ret - sum| and sum <= (1+1e-9) x exact optimum are evaluated in rational arithmetic. Theorems cover validity for ANY per-phase odd cycle and the propagation of a per-phase factor; the floating-point error bound itself is not a theorem.",
         "evaluations": len(jobs), "distinct_nontrivial": len({json.dumps([c[0], c[1], t, v]) for (c, t, v) in jobs.values() if len(c[1]) - c[0] + components(c[0], c[1]) >= 1}),
         "rule": "random structured graph x weight tokens x variant; non-trivial = cycle space dimension >= 1",
-        "known_finding_hits": len(known), "runs_validated_by_verified_certificate": len(qoks), "runs_with_a_phase_not_exactly_minimum": sum(1 for w in qoks if w[-1] != "0"),
+        "known_finding_hits": len(known), "runs_validated_by_verified_certificate": len(qoks), "runs_with_a_phase_not_exactly_minimum": sum(1 for w in qoks if w[-2] != "0"),
+        "mcb_sva_signed_runs_replayed_literally_in_double_arithmetic_with_equal_cycles_and_equal_returned_double": sum(int(w[-1]) for w in qoks),
         "float_spt_certificates": {"graphs": len([w for w in foks if not w[1].endswith("-acc")]), "trees": sum(int(w[-1]) for w in foks if not w[1].endswith("-acc")), "accumulations": len([w for w in foks if w[1].endswith("-acc")])}, "samples": [{"n": c[0], "edges": [[u, v, t] for (u, v, _), t in zip(c[1], toks)], "variant": v} for (c, toks, v) in list(jobs.values())[:2]]})
     if rc != 0 and not bad:
         res.violation("harness crashed", {"kind": "crash", "stderr": err[-3000:]}); return res.finish()
